@@ -8,7 +8,7 @@ A. positional parameters: ALL argument lists of length 0..2 (thorough 0..3) over
 B. functions: names f, g-h, _k x both header spellings x arities 0..2, defined in the script or in a sourced file;
 C. `source` chains of depth 1..3 that define a variable, an alias, a function and change directory;
 D. status propagation: ALL bodies of up to 3 (thorough 4) lines over {succeeding command, failing command, exit 5,
-   set -e, function call (status 4), source (status 2)} at top level and inside an `if` body.
+   set -e, function call (status 4), source (status 2)} at top level, inside an `if` body and inside the body of a `for` over two words.
 Executed by the real binary; oracle = reference model of frames, persistence and status propagation."""
 import itertools
 import json
@@ -109,18 +109,24 @@ LINES = {'M0': 'vh-mark {i} 0', 'M3': 'vh-mark {i} 3', 'E5': 'exit 5', 'SE': 'se
 
 
 def ref_status(body, tail=False):
-    """returns (marks, exit_status); with tail a succeeding command follows the block"""
-    m, st, completed = _ref_status(body)
+    """returns (marks, exit_status); with tail a succeeding command follows the block; tail == 'for2': the body is the
+    body of a `for` over two words (runs twice, `set -e` stays on, a failing command / exit ends everything)"""
+    if tail == 'for2':
+        m, st, completed = _ref_status(tuple(body) * 2, len(body))
+    else:
+        m, st, completed = _ref_status(body)
     if tail and completed:
         return m + ['after'], 0
     return m, st
 
 
-def _ref_status(body):
+def _ref_status(body, period=None):
     marks = []
     status = 0
     errexit = False
     for i, k in enumerate(body):
+        if period:
+            i = i % period
         if k == 'M0':
             marks.append(str(i + 1))
             status = 0
@@ -146,7 +152,7 @@ def _ref_status(body):
 def run(rep, tier):
     nargs, nbody = (3, 4) if tier == 'thorough' else (2, 3)
     rep.rule = ('A: all argument lists of length 0..%d over %r x %d reference forms x {script, function} frames; B/C: function names x headers x arities, source chains 1..3; '
-                'D: all bodies of up to %d lines over %r at top level and inside an if body; non-trivial = case with at least one argument / two body lines; distinct = distinct script' % (nargs, ARGS, len(REFS), nbody, sorted(LINES)))
+                'D: all bodies of up to %d lines over %r at top level, inside an if body and inside the body of a for over two words; non-trivial = case with at least one argument / two body lines; distinct = distinct script' % (nargs, ARGS, len(REFS), nbody, sorted(LINES)))
     rep.assumptions = [
         'an unquoted reference may yield the value as one argument or split at blanks; "$@" is compared as the arguments joined by single blanks (cicada substitutes the joined text)',
         'functions are only called after their definition; set -e is not combined with && / || lists or conditions',
@@ -216,10 +222,12 @@ def run(rep, tier):
     for n in range(1, nbody + 1):
         bodies += list(itertools.product(sorted(LINES), repeat=n))
     for body in bodies:
-        for inside_if in (False, True):
+        for inside_if in (False, True, 'for2'):
             lines = [LINES[k].format(i=i + 1) for i, k in enumerate(body)]
             text = 'function ff {\n    vh-mark f 4\n}\n'
-            if inside_if:
+            if inside_if == 'for2':
+                text += 'for v in p q\n' + ''.join('    ' + l + '\n' for l in lines) + 'done\nvh-mark after 0\n'
+            elif inside_if:
                 text += 'if vh-cond 1\n' + ''.join('    ' + l + '\n' for l in lines) + 'fi\nvh-mark after 0\n'
             else:
                 text += ''.join(l + '\n' for l in lines)
@@ -283,7 +291,7 @@ def run(rep, tier):
             marks, st = ref_status(body, tail=inside_if)
             exp = {'marks': marks, 'exit_status': st}
             got = [r[2][0] for r in o['recs'] if r[0] == 'mark']
-            cls = '%s:%s' % ('if-body' if inside_if else 'top', '+'.join(sorted(set(body))))
+            cls = '%s:%s' % ('for-body' if inside_if == 'for2' else 'if-body' if inside_if else 'top', '+'.join(sorted(set(body))))
             if got != marks:
                 dev = 'status-sequence'
             elif o['status'] != st:
